@@ -3113,7 +3113,7 @@ def check_C17(ctx: Ctx) -> None:
         else:
             b = _hostile(r)
             kind = "hostile"
-        inputs.append((kind, r.choice(["flat", "flat", "grouped"]) + ":" + r.choice(["seek", "seek", "raw:1", "raw:2", "raw:3", "raw:4096"]), b))
+        inputs.append((kind, r.choice(["flat", "flat", "grouped"]) + ":" + r.choice(["seek", "seek", "file", "raw:1", "raw:2", "raw:3", "raw:4096"]), b))
     # sizes "declared" inside lexical forms: a numeric literal whose exponent would expand to a huge canonical form
     # (the rdflib integration must keep the lexical form as written), through every rdflib entry point
     xsd = "http://www.w3.org/2001/XMLSchema#"
@@ -3137,6 +3137,11 @@ def check_C17(ctx: Ctx) -> None:
         inputs.append(("hostile", "flat:seek", b"\x00" * count + small))
         inputs.append(("hostile", "flat:raw:4096", b"\x00" * count + small))  # (grouped would rightly build one sink per real frame)
         inputs.append(("hostile", "rflat:seek", b"\x00" * count + small))
+    # a few bytes that DECLARE a frame of gigabytes, from every kind of source (in memory, a regular file, non-seekable)
+    body = jelly.RdfStreamFrame(rows=[jelly.RdfStreamRow(options=jelly.RdfStreamOptions(physical_type=1, max_name_table_size=8, version=1))]).SerializeToString()
+    for declared in (2**32, 2**36, 2**40, 2**62):
+        for e in ("flat:seek", "flat:file", "grouped:file", "flat:raw:4096", "flat:raw:1", "rflat:file"):
+            inputs.append(("hostile", e, _varint(declared) + body))
     # real code in a watchdogged subprocess with an address-space cap
     cap = 3 << 30
     payload = "".join(f"{e} {b.hex()}\n" for _, e, b in inputs)
@@ -3166,15 +3171,9 @@ def check_C17(ctx: Ctx) -> None:
         oc = out.rsplit(" ", 1)[-1]
         ctx.dist["outcome:" + (oc if oc.startswith("!") or oc in ("end", "HANG") else "end")] += 1
         raw = ":raw" in entry
-        if raw and (out.endswith("!MemoryError") or (rss - base_rss > _c17_allowance_kb(b))) and _declares_huge_frame(b):
-            # BufferedReader.read(size) allocates the DECLARED frame length up front (parse_length_prefixed)
-            ctx.fail(f"non-seekable source: allocation proportional to a declared frame length ({out[-14:]}, +{(rss - base_rss) // 1024} MB)",
-                     dict(entry=entry, bytes=b.hex()[:400]), known="C17-declared-frame-length")
-            base_rss = max(base_rss, rss)
-            continue
         if out == "HANG" or ms > 5000:
             ctx.fail(f"parser did not terminate promptly ({ms} ms)", dict(entry=entry, bytes=b.hex()))
-        elif out.startswith("!!") or out == "!MemoryError":
+        elif out.startswith("!!") or out.endswith("!MemoryError") or out.endswith("!RecursionError"):
             ctx.fail(f"parser ended with {out}", dict(entry=entry, bytes=b.hex()))
         elif rss - base_rss > _c17_allowance_kb(b):
             ctx.fail(f"peak RSS grew by {(rss - base_rss) // 1024} MB while parsing {len(b)} bytes", dict(entry=entry, bytes=b.hex()[:4000]))
@@ -3188,12 +3187,10 @@ def check_C17(ctx: Ctx) -> None:
         if len(b) > 20000:
             ctx.dist["long_inputs_safety_only"] += 1
             continue
-        if raw and _declares_huge_frame(b):
-            # BufferedReader.read(n) for n near 2^63 raises OverflowError / tries to allocate: the byte-source model has no
-            # notion of allocation, so these inputs are compared for no-crash/no-hang only
-            ctx.dist["out_of_model:huge_length_on_nonseekable"] += 1
-            continue
-        reqs.append(f"par {e_name} 0 1 {e_src} {b.hex()}" if b else f"par {e_name} 0 1 {e_src}")
+        if _declares_huge_frame(b):
+            ctx.dist["declares_a_frame_far_longer_than_the_input"] += 1
+        m_src = "seek" if e_src == "file" else e_src   # the byte-source model has one kind of seekable source
+        reqs.append(f"par {e_name} 0 1 {m_src} {b.hex()}" if b else f"par {e_name} 0 1 {m_src}")
         resp.append(out)
     ctx.extra["peak_rss_kb"] = max([int(line.rsplit("\t", 2)[1]) for line in lines] or [0])
     ctx.corr("PARSE", reqs, resp)
